@@ -78,6 +78,42 @@ class ClassInfo:
         return '<class %s>' % self.qualname
 
 
+# positional parameter names of standard-library callables the repository calls; a call that
+# passes these by keyword is rewritten to the positional form when the module is loaded, so
+# that ``x.to_bytes(3, 'big')`` and ``x.to_bytes(length=3, byteorder='big')`` are one term
+STDLIB_SIGNATURES = {
+    'token_bytes': ['nbytes'],
+    'to_bytes': ['length', 'byteorder'],
+    'from_bytes': ['bytes', 'byteorder'],
+    'decode': ['encoding', 'errors'],
+    'b64encode': ['s', 'altchars'],
+    'b64decode': ['s', 'altchars'],
+    'urlsafe_b64encode': ['s'],
+    'urlsafe_b64decode': ['s'],
+    'parse_qs': ['qs', 'keep_blank_values'],
+    'urlparse': ['url', 'scheme'],
+}
+
+
+class _CanonCalls(ast.NodeTransformer):
+    def visit_Call(self, node):
+        self.generic_visit(node)
+        f = node.func
+        name = f.attr if isinstance(f, ast.Attribute) else (f.id if isinstance(f, ast.Name)
+                                                            else None)
+        sig = STDLIB_SIGNATURES.get(name)
+        if sig and node.keywords and not any(isinstance(a, ast.Starred) for a in node.args) \
+                and all(k.arg is not None for k in node.keywords):
+            n = len(node.args)
+            names = [k.arg for k in node.keywords]
+            want = sig[n:n + len(names)]
+            if len(want) == len(names) and set(want) == set(names):
+                kw = {k.arg: k.value for k in node.keywords}
+                node.args = list(node.args) + [kw[x] for x in want]
+                node.keywords = []
+        return node
+
+
 class ModuleInfo:
     def __init__(self, name, path, relpath, src):
         self.name = name
@@ -85,7 +121,7 @@ class ModuleInfo:
         self.relpath = relpath
         self.src = src
         self.lines = src.splitlines()
-        self.tree = ast.parse(src, filename=path)
+        self.tree = _CanonCalls().visit(ast.parse(src, filename=path))
         self.classes = {}
         self.functions = {}
         self.consts = {}            # module-level simple assignments name -> expr
@@ -427,6 +463,60 @@ class Model:
             return ast.literal_eval(r[1])
         except Exception:
             raise AnalysisError('constant %s in %s is not a literal' % (dotted, mi.name))
+
+    def stable_consts(self, mi):
+        """name -> ast.Constant / Tuple of Constants for module-level names that are bound
+        exactly once in the module (top-level statement, never rebound, never declared
+        ``global`` in a function) to an immutable literal, possibly built from other such
+        names with ``+``.  A reference to such a name *is* the literal."""
+        cache = self.__dict__.setdefault('_stable', {})
+        if mi.name in cache:
+            return cache[mi.name]
+        stores = {}
+        for n in ast.walk(mi.tree):
+            if isinstance(n, ast.Name) and isinstance(n.ctx, (ast.Store, ast.Del)):
+                stores[n.id] = stores.get(n.id, 0) + 1
+            elif isinstance(n, (ast.Global, ast.Nonlocal)):
+                for x in n.names:
+                    stores[x] = stores.get(x, 0) + 2
+            elif isinstance(n, (ast.Import, ast.ImportFrom)):
+                for al in n.names:
+                    x = al.asname or al.name.split('.')[0]
+                    stores[x] = stores.get(x, 0) + 2
+            elif isinstance(n, (ast.FunctionDef, ast.AsyncFunctionDef, ast.ClassDef)):
+                stores[n.name] = stores.get(n.name, 0) + 2
+                if not isinstance(n, ast.ClassDef):
+                    for a in ast.walk(n.args):
+                        if isinstance(a, ast.arg):
+                            # a parameter of the same name shadows it somewhere: keep out
+                            stores[a.arg] = stores.get(a.arg, 0) + 2
+        out = {}
+
+        def fold(e, depth=0):
+            if isinstance(e, ast.Constant) and isinstance(e.value, (str, bytes, int, float)) \
+                    and not isinstance(e.value, bool):
+                return e
+            if isinstance(e, ast.Name) and e.id in out:
+                return out[e.id]
+            if isinstance(e, ast.Tuple) and depth == 0:
+                parts = [fold(x, 1) for x in e.elts]
+                if all(p is not None for p in parts):
+                    return ast.copy_location(ast.Tuple(parts, ast.Load()), e)
+                return None
+            if isinstance(e, ast.BinOp) and isinstance(e.op, ast.Add):
+                a, b = fold(e.left, 1), fold(e.right, 1)
+                if isinstance(a, ast.Constant) and isinstance(b, ast.Constant) and \
+                        type(a.value) is type(b.value) and isinstance(a.value, (str, bytes)):
+                    return ast.copy_location(ast.Constant(a.value + b.value), e)
+            return None
+        for st in mi.tree.body:
+            if isinstance(st, ast.Assign) and len(st.targets) == 1 and \
+                    isinstance(st.targets[0], ast.Name) and stores.get(st.targets[0].id) == 1:
+                v = fold(st.value)
+                if v is not None:
+                    out[st.targets[0].id] = v
+        cache[mi.name] = out
+        return out
 
     def loc(self, fi_or_mi, node):
         rel = fi_or_mi.relpath
